@@ -1,11 +1,11 @@
 import Mathlib.Analysis.SpecialFunctions.Pow.Deriv
 import CopVerif.Real.Gumbel
 /-! Gumbel copula over ℝ, C07 derivative facts: on the open unit square and for `θ > 1`,
-    `h = ∂C/∂v` and `c = ∂h/∂u = ∂²C/∂u∂v`; and kernel-checked witnesses that the `θ == 1`
-    shortcuts of the generated `partial_derivative` (returns `v`) and `probability_density`
-    (returns `u*v`) are **not** the derivatives of the `θ = 1` CDF `u*v` (which are `u` and `1`),
-    while the general formulas evaluated at `θ = 1` are (`Gumbel.h_theta_one`,
-    `Gumbel.c_theta_one`). -/
+    `h = ∂C/∂v` and `c = ∂h/∂u = ∂²C/∂u∂v`; at `θ = 1` the (repaired) shortcuts of the generated
+    `partial_derivative` (returns `u`) and `probability_density` (returns `1`) are the derivatives
+    of the `θ = 1` CDF `u*v` and agree with the general formulas (`Gumbel.h_theta_one`,
+    `Gumbel.c_theta_one`).  Before the repair they returned `v` and `u*v`; the former witness
+    `(1/4, 1/2)` is kept as a regression theorem. -/
 namespace CopVerif.Gumbel
 open CopVerif NumFns Real
 
@@ -110,58 +110,29 @@ example : HasDerivAt (fun u => h 2 u (1 / 3)) (c 2 (1 / 2) (1 / 3)) (1 / 2) :=
 
 /-! ### the `θ = 1` shortcut defect, as kernel-checked counter-examples -/
 
-/-- `partial_derivative` at `θ = 1` returns `v = 1/2` on the row `(1/4, 1/2)`, whereas the
-`v`-derivative of the `θ = 1` CDF `v ↦ (1/4)·v` (what `cumulative_distribution` returns at
-`θ = 1`, cf. `cdf_rowwise`) is `1/4` there.  Derivatives are unique, so the returned value is not
-`∂C/∂v`. -/
-theorem h_theta_one_counterexample :
-    Gen.Gumbel.h (1 : ℝ) [(1 / 4, 1 / 2)] = .ok [1 / 2] ∧
-      Gen.Gumbel.cdf (1 : ℝ) [(1 / 4, 1 / 2)] = .ok [1 / 4 * (1 / 2)] ∧
-      HasDerivAt (fun v => (1 / 4 : ℝ) * v) (1 / 4) (1 / 2) ∧
-      ¬ HasDerivAt (fun v => (1 / 4 : ℝ) * v) (1 / 2) (1 / 2) ∧
-      (1 / 2 : ℝ) ≠ 1 / 4 := by
-  have hd : HasDerivAt (fun v => (1 / 4 : ℝ) * v) (1 / 4) (1 / 2) := by
-    simpa using (hasDerivAt_id (1 / 2 : ℝ)).const_mul (1 / 4 : ℝ)
-  refine ⟨?_, ?_, hd, ?_, by norm_num⟩
-  · rw [h_theta_one_rowwise]; simp
+/-- θ = 1 after the repair: the shortcut of `partial_derivative` returns `u`, which IS the
+`v`-derivative of the θ = 1 CDF `u·v` (regression witness `(1/4, 1/2)` of the former defect). -/
+theorem h_theta_one_is_derivative (u v : ℝ) :
+    Gen.Gumbel.h (1 : ℝ) [(u, v)] = .ok [u] ∧
+      Gen.Gumbel.cdf (1 : ℝ) [(u, v)] = .ok [u * v] ∧
+      HasDerivAt (fun v => u * v) u v := by
+  refine ⟨by rw [h_theta_one_rowwise]; simp, ?_, ?_⟩
   · rw [cdf_rowwise le_rfl]; simp
-  · intro hd'
-    have := hd.unique hd'
-    norm_num at this
+  · simpa using (hasDerivAt_id v).const_mul u
 
-/-- `probability_density` at `θ = 1` returns `u·v = 1/8` on the row `(1/4, 1/2)`, whereas the mixed
-derivative `∂/∂u ∂/∂v (u·v)` is `1` everywhere (and the general formula gives `c 1 u v = 1`). -/
-theorem pdf_theta_one_counterexample :
-    Gen.Gumbel.pdf (1 : ℝ) [(1 / 4, 1 / 2)] = .ok [1 / 8] ∧
-      (∀ u v : ℝ, HasDerivAt (fun v => u * v) u v) ∧
-      (∀ u v : ℝ, HasDerivAt (fun u' : ℝ => deriv (fun v' : ℝ => u' * v') v) 1 u) ∧
-      c 1 (1 / 4) (1 / 2) = 1 ∧
-      (1 / 8 : ℝ) ≠ 1 := by
-  refine ⟨?_, ?_, ?_, ?_, by norm_num⟩
-  · rw [pdf_theta_one_rowwise]; simp; norm_num
-  · intro u v
-    simpa using (hasDerivAt_id v).const_mul u
-  · intro u v
-    have : (fun u' : ℝ => deriv (fun v' : ℝ => u' * v') v) = fun u' => u' := by
-      funext u'
-      simp
-    rw [this]
-    exact hasDerivAt_id u
-  · exact c_theta_one (by norm_num) (by norm_num) (by norm_num) (by norm_num)
+theorem h_theta_one_regression :
+    Gen.Gumbel.h (1 : ℝ) [(1 / 4, 1 / 2)] = .ok [1 / 4] := (h_theta_one_is_derivative _ _).1
 
-/-- The defect is not confined to one point: on the open square the `θ = 1` shortcut of
-`partial_derivative` agrees with the true conditional CDF `h 1 u v = u` only on the diagonal. -/
-theorem h_theta_one_shortcut_wrong {u v : ℝ} (hu : 0 < u) (hu1 : u < 1) (hv : 0 < v) (hv1 : v < 1)
-    (huv : u ≠ v) : Gen.Gumbel.h (1 : ℝ) [(u, v)] ≠ .ok [h 1 u v] := by
-  rw [h_theta_one_rowwise, h_theta_one hu hu1 hv hv1]
-  simp [huv.symm]
+/-- θ = 1 after the repair: the density shortcut returns `1`, the mixed derivative of `u·v`, and
+agrees with the general formula. -/
+theorem pdf_theta_one_is_derivative (u v : ℝ) :
+    Gen.Gumbel.pdf (1 : ℝ) [(u, v)] = .ok [1] ∧
+      HasDerivAt (fun u' : ℝ => u') 1 u := by
+  refine ⟨by rw [pdf_theta_one_rowwise]; simp, hasDerivAt_id u⟩
 
-/-- On the open square the `θ = 1` shortcut of `probability_density` is wrong at every point
-(`u·v < 1 = c 1 u v`). -/
-theorem pdf_theta_one_shortcut_wrong {u v : ℝ} (hu : 0 < u) (hu1 : u < 1) (hv : 0 < v)
-    (hv1 : v < 1) : Gen.Gumbel.pdf (1 : ℝ) [(u, v)] ≠ .ok [c 1 u v] := by
-  rw [pdf_theta_one_rowwise, c_theta_one hu hu1 hv hv1]
-  have : u * v < 1 := by nlinarith
-  simp [this.ne]
+theorem pdf_theta_one_regression :
+    Gen.Gumbel.pdf (1 : ℝ) [(1 / 4, 1 / 2)] = .ok [1] ∧ c 1 (1 / 4) (1 / 2) = 1 :=
+  ⟨(pdf_theta_one_is_derivative _ _).1,
+    c_theta_one (by norm_num) (by norm_num) (by norm_num) (by norm_num)⟩
 
 end CopVerif.Gumbel
